@@ -226,16 +226,28 @@ def _postdom(cfg):
     succ[cfg.exit.id] = [VEXIT]; succ[cfg.raise_exit.id] = [VEXIT]; succ[VEXIT] = []
     for i in range(N):
         if not succ[i] and i not in (cfg.exit.id, cfg.raise_exit.id): succ[i] = [VEXIT]   # dead ends
-    full = set(range(N + 1))
-    pd = {i: set(full) for i in range(N + 1)}; pd[VEXIT] = {VEXIT}
-    changed = True
-    while changed:
-        changed = False
-        for i in range(N):
-            new = set(full)
-            for s_ in succ[i]: new &= pd[s_]
-            new |= {i}
-            if new != pd[i]: pd[i] = new; changed = True
+    FULL = (1 << (N + 1)) - 1
+    pdb = [FULL] * (N + 1); pdb[VEXIT] = 1 << VEXIT          # bitsets
+    preds = {i: [] for i in range(N + 1)}
+    for i, ss in succ.items():
+        for t_ in ss: preds[t_].append(i)
+    work = list(range(N)); inw = set(work)
+    while work:
+        i = work.pop(); inw.discard(i)
+        new = FULL
+        for s_ in succ[i]: new &= pdb[s_]
+        new |= 1 << i
+        if new != pdb[i]:
+            pdb[i] = new
+            for p_ in preds[i]:
+                if p_ not in inw and p_ != VEXIT: work.append(p_); inw.add(p_)
+    pd = {}
+    for i in range(N + 1):
+        b = pdb[i]; st = set(); k = 0
+        while b:
+            if b & 1: st.add(k)
+            b >>= 1; k += 1
+        pd[i] = st
     return pd, succ, VEXIT
 def control_dependence(cfg):
     """node id -> list of (cond node, edge kind) the node is control dependent on (Ferrante-Ottenstein-Warren via post-dominator sets)"""
